@@ -9,14 +9,61 @@
 #include "jobs.h"
 #include "ops.h"
 #include "oracles.h"
+#include "verif_hooks.h"
 
 namespace vh {
 namespace {
 
 struct Scenario {
   std::vector<Op> setup, expr;
+  std::vector<Op> prior;  // expression evaluated through the SAME context before the observed op (context reuse)
   Op obs;
 };
+
+// Solid-level summary of an intermediate (mesh-level data legitimately depends on forcing order, see C03).
+struct Solid {
+  int status = 0;
+  double v[8] = {0, 0, 0, 0, 0, 0, 0, 0};
+  bool finite = true;
+};
+Solid solid_of(const Manifold& m) {
+  Solid s;
+  s.status = (int)m.Status();
+  if (m.Status() != Manifold::Error::NoError) return s;
+  s.v[0] = m.Volume();
+  s.v[1] = m.SurfaceArea();
+  Box b = m.BoundingBox();
+  s.finite = b.IsFinite();
+  if (s.finite) {
+    for (int k = 0; k < 3; k++) {
+      s.v[2 + k] = b.min[k];
+      s.v[5 + k] = b.max[k];
+    }
+  }
+  return s;
+}
+bool solid_equal(const Solid& a, const Solid& b) {
+  if (a.status != b.status || a.finite != b.finite) return false;
+  for (int k = 0; k < 8; k++)
+    if (!(std::abs(a.v[k] - b.v[k]) <= 1e-7 * (1 + std::abs(a.v[k]) + std::abs(b.v[k])))) return false;
+  return true;
+}
+
+// Progress() as a concurrent observer would see it at this instant: sampled at
+// every sync point the context's counters pass (hook H3), i.e. wherever the
+// simulator could switch to a polling thread.
+ExecutionContext* g_sampleCtx = nullptr;
+std::string* g_sampleClause = nullptr;
+long g_sampleCount = 0;
+void sampling_sync(int site) {
+  if (g_sampleCtx && site == manifold::verif::kCtxCounter) {
+    const double p = g_sampleCtx->Progress();
+    g_sampleCount++;
+    if (!(p >= 0.0 && p <= 1.0) && g_sampleClause && g_sampleClause->empty())
+      *g_sampleClause = "progress_out_of_range_for_concurrent_observer:" + std::to_string(p);
+  }
+  sim::sync_point(site);
+}
 
 struct RunResult {
   std::string fp;            // fingerprint of the observed result
@@ -27,6 +74,8 @@ struct RunResult {
   std::string rebuildFp;     // expression rebuilt with a fresh context
   double finalProgress = -1;
   bool ctxCancelled = false;
+  std::vector<Solid> intermediates;   // phase-2 objects forced WITHOUT a context after the observed call
+  std::string observerClause;         // from the sync-point sampler
 };
 
 Manifold observe_with(Env& e, const Op& obs, ExecutionContext& ctx, bool* ok) {
@@ -89,6 +138,17 @@ RunResult run_once(const Scenario& sc, const SimSetup& s, long k, long* nChecks,
     const uint32_t idCounterBefore = Manifold::Impl::meshIDCounter_;
     for (auto& op : sc.expr) exec(e, op);
     ExecutionContext ctx;
+    // context reuse: an earlier, uncancelled evaluation through the same context
+    if (!sc.prior.empty()) {
+      Env pe;
+      pe.capM = 64;
+      for (auto& op : sc.prior) exec(pe, op);
+      if (!pe.M.empty()) (void)pe.M.back().WithContext(ctx).Status();
+    }
+    g_sampleCtx = &ctx;
+    g_sampleClause = &rr.observerClause;
+    auto savedSync = manifold::verif::hooks.syncPoint;
+    manifold::verif::hooks.syncPoint = sampling_sync;
     g_probe = CancelProbe();
     g_probe.target = ctx.impl_.get();
     g_probe.countdown = k;
@@ -102,6 +162,9 @@ RunResult run_once(const Scenario& sc, const SimSetup& s, long k, long* nChecks,
     rr.status = (int)res.Status();
     if (nChecks) *nChecks = g_probe.checks;
     remove_cancel_probe();
+    manifold::verif::hooks.syncPoint = savedSync;
+    g_sampleCtx = nullptr;
+    g_sampleClause = nullptr;
     rr.finalProgress = ctx.Progress();
     rr.ctxCancelled = ctx.Cancelled();
     rr.fp = fp_manifold(res);
@@ -123,6 +186,10 @@ RunResult run_once(const Scenario& sc, const SimSetup& s, long k, long* nChecks,
     }
     // operands untouched
     for (size_t i = 0; i < nOperands; i++) rr.operandFp.push_back(fp_manifold(e.M[i]));
+    // Intermediates of the expression (they share op nodes with the observed tree): forced now,
+    // WITHOUT a context, each must be Cancelled or denote what it denotes in the uncancelled run --
+    // never a partially reduced tree.
+    for (size_t i = nOperands; i < e.M.size(); i++) rr.intermediates.push_back(solid_of(e.M[i]));
     // rebuild from the operands with a fresh context
     if (k > 0) {
       e.M.resize(nOperands);
@@ -149,10 +216,12 @@ std::string job_c15(const Args& a) {
   Scenario sc;
   sc.setup = parse_program(a.s("setup"));
   sc.expr = parse_program(a.s("expr", ""));
+  sc.prior = parse_program(a.s("prior", ""));
   auto ob = parse_program(a.s("obs", "status"));
   sc.obs = ob.empty() ? Op{"status", {}} : ob[0];
   JArr viol;
   long N = 0;
+  g_sampleCount = 0;
   ProgressTrace pt;
   SimOutcome out0;
   const auto t0 = std::chrono::steady_clock::now();
@@ -162,6 +231,7 @@ std::string job_c15(const Args& a) {
     viol.raw(JObj().i64("k", k).str("clause", clause).done());
   };
   if (!pt.clause.empty()) addViol(0, pt.clause);
+  if (!ref.observerClause.empty()) addViol(0, ref.observerClause);
   if (ref.status == (int)Manifold::Error::NoError || ref.status != (int)Manifold::Error::Cancelled) {
     if (ref.finalProgress != 1.0) addViol(0, "final_progress_not_1:" + std::to_string(ref.finalProgress));
   }
@@ -218,11 +288,22 @@ std::string job_c15(const Args& a) {
     if (r.operandFp != ref.operandFp) addViol(k, "operand_changed");
     if (!r.rebuildFp.empty() && r.rebuildFp != ref.fp) addViol(k, "rebuild_with_fresh_context_differs:" + fp_diff(ref.fp, r.rebuildFp));
     if (!ptk.clause.empty()) addViol(k, ptk.clause);
+    if (!r.observerClause.empty()) addViol(k, r.observerClause);
+    if (r.intermediates.size() == ref.intermediates.size()) {
+      for (size_t i = 0; i < r.intermediates.size(); i++) {
+        const Solid& x = r.intermediates[i];
+        if (x.status == (int)Manifold::Error::Cancelled) continue;
+        if (!solid_equal(x, ref.intermediates[i])) {
+          addViol(k, "intermediate_differs_after_cancel:node" + std::to_string(i));
+          break;
+        }
+      }
+    }
   }
   JObj j;
   j.i64("checks", N).i64("k_tested", (int64_t)ks.size()).i64("cancelled", nCancelled).i64("completed", nCompleted);
   j.i64("not_reached", nNotReached).i64("progress_samples", pt.samples).num("final_progress", ref.finalProgress);
-  j.i64("ref_status", ref.status).str("ref_fp", ref.fp.substr(0, 60)).u64("total_steps", steps);
+  j.i64("observer_samples", g_sampleCount).i64("ref_status", ref.status).str("ref_fp", ref.fp.substr(0, 60)).u64("total_steps", steps);
   j.raw("viol", viol.done()).raw("sim", outcome_json(out0));
   return j.done();
 }
